@@ -57,7 +57,7 @@ def scc_oracle(C, threshold):
             mem = np.where(both[i])[0]
             seen[mem] = True
             comps.append(mem)
-    w = [int(C[m].sum()) for m in comps]
+    w = [int(C[m].astype(np.int64).sum()) for m in comps]
     return comps, w
 
 
@@ -170,6 +170,8 @@ def check_trim(ctx, C, thr, renumber, mapping, Tc, tag):
 def run_case(ctx, kind, rng, idx):
     from vf.monitor import Frozen
     C, thr, info = planted(rng)
+    C = C.astype([np.int64, np.int64, np.int32, np.uint32, np.uint16][
+        int(rng.integers(0, 5))])
     n = len(C)
     renumber = bool(rng.random() < 0.5)
     desc = dict(info, n=n, threshold=thr, renumber=renumber,
